@@ -179,6 +179,17 @@ prop("C27",
               "the undo arms that write rows/cols directly (DeleteRows/DeleteColumns/DeleteSheet restore)")
 
 
+prop("C17",
+     units=["rename"],
+     level="proof",
+     claim="rename_sheet_in_node, arm by arm: a reference/range with an explicit sheet name into the renamed sheet gets the new name, every other "
+           "reference (other sheet index, no explicit name, or a sheet that does not exist) keeps its name, and all 13 composite arms visit every child with "
+           "the same sheet index and new name",
+     assumptions=["str/String to_owned/to_uppercase as documented; String equality as vstd models it",
+                  "the match in rename_sheet_in_node dispatches each node kind to the arm extracted for it (arms are extracted one by one)"],
+     residual="value preservation after rename/move/duplicate (re-parse against the worksheet list, reset_parsed_structures, defined names, duplicate_sheet name handling)")
+
+
 def evidence(pid, tier, seed, results, scan_results, kani_results, violations, known_hits, undecided, wall):
     P = PROPS[pid]
     obligations = 0
